@@ -10,11 +10,11 @@ Open Scope Z_scope.
 Section Idem.
   Variable IdQ : string -> Z -> bool -> bool -> bool.
   Hypothesis IdQ_det : forall n w r t t', IdQ n w r t = true -> IdQ n w r t' = true -> t = t'.
-  Notation wfq := (wf IdQ).
+  Notation wfq := (wf false IdQ).
   Let rho0 : string -> Z := fun _ => 0.
   Let mu0 : Z -> Z := fun _ => 0.
   Let iota0 : string -> list Z -> Z := fun _ _ => 0.
-  Notation goodq := (good IdQ rho0 mu0 iota0).
+  Notation goodq := (good false IdQ rho0 mu0 iota0).
 
   (** == is equality on well-formed trees *)
   Lemma wf_eqb_eq : forall x y, wfq x = true -> wfq y = true -> expr_eqb x y = true -> x = y.
@@ -96,6 +96,7 @@ Section Idem.
   Section Frame.
     Variable cb : expr -> res expr.
     Hypothesis cb_good : forall x x', wfq x = true -> cb x = Ok x' -> goodq x x'.
+    Hypothesis cb_int : forall sg w v x', cb (EInt sg w v) = Ok x' -> is_int x' = true.
     Hypothesis cb_DF : forall x r, wfq x = true -> kids x -> cb x = Ok r -> DF r.
 
     Lemma visit_DF : forall e rr, wfq e = true -> visitM cb e = Ok rr -> DF rr.
@@ -108,14 +109,14 @@ Section Idem.
         simpl in HV. destruct s as [u|].
         + destruct (visitM cb u) as [u'| |] eqn:Eu; try discriminate. cbn [bind] in HV.
           destruct (visitM cb e) as [a'| |] eqn:Ea; try discriminate. cbn [bind] in HV.
-          pose proof (visit_good IdQ rho0 mu0 iota0 cb cb_good u u' Ws Eu) as (Wu' & _). pose proof (visit_good IdQ rho0 mu0 iota0 cb cb_good e a' Wa Ea) as (Wa' & _).
+          pose proof (visit_good false IdQ rho0 mu0 iota0 cb cb_good cb_int u u' Ws Eu) as (Wu' & _). pose proof (visit_good false IdQ rho0 mu0 iota0 cb cb_good cb_int e a' Wa Ea) as (Wa' & _).
           assert (X : (if opt_eqb expr_eqb (Some u') (Some u) && expr_eqb a' e then EMem e w (Some u) else EMem a' w (Some u')) = EMem a' w (Some u')).
           { destruct (opt_eqb expr_eqb (Some u') (Some u) && expr_eqb a' e) eqn:Q; [|reflexivity]. apply andb_true_iff in Q as [Q1 Q2]. simpl in Q1.
             rewrite (wf_eqb_eq u' u Wu' Ws Q1), (wf_eqb_eq a' e Wa' Wa Q2). reflexivity. }
           rewrite X in HV. apply (cb_DF (EMem a' w (Some u')) rr); [simpl; rewrite Wa', Ww, Wu'; reflexivity | | exact HV].
           cbn [kids]. split; [apply (IHe a' Wa ltac:(first [reflexivity | exact Ea])) | apply (H u' Ws ltac:(first [reflexivity | exact Eu]))].
         + destruct (visitM cb e) as [a'| |] eqn:Ea; try discriminate. cbn [bind] in HV.
-          pose proof (visit_good IdQ rho0 mu0 iota0 cb cb_good e a' Wa Ea) as (Wa' & _).
+          pose proof (visit_good false IdQ rho0 mu0 iota0 cb cb_good cb_int e a' Wa Ea) as (Wa' & _).
           assert (X : (if opt_eqb expr_eqb None None && expr_eqb a' e then EMem e w None else EMem a' w None) = EMem a' w None).
           { destruct (opt_eqb expr_eqb None None && expr_eqb a' e) eqn:Q; [|reflexivity]. apply andb_true_iff in Q as [_ Q2]. rewrite (wf_eqb_eq a' e Wa' Wa Q2). reflexivity. }
           rewrite X in HV. apply (cb_DF (EMem a' w None) rr); [simpl; rewrite Wa', Ww; reflexivity | | exact HV].
@@ -124,8 +125,8 @@ Section Idem.
         pose proof W as W'. simpl in W'. apply andb_true_iff in W' as [Wl O]. apply forallb_Forall in Wl.
         simpl in HV. destruct (mapM (visitM cb) args) as [args'| |] eqn:Em; try discriminate. cbn [bind] in HV.
         assert (F2 : Forall2 goodq args args').
-        { apply (mapM_good IdQ rho0 mu0 iota0 (visitM cb)); [|exact Wl | exact Em]. apply Forall_forall. intros a _ a' Wa Ea. apply (visit_good IdQ rho0 mu0 iota0 cb cb_good); assumption. }
-        pose proof (node_good IdQ rho0 mu0 iota0 op args args' W F2) as (Wn & _).
+        { apply (mapM_good false IdQ rho0 mu0 iota0 (visitM cb)); [|exact Wl | exact Em]. apply Forall_forall. intros a _ a' Wa Ea. apply (visit_good false IdQ rho0 mu0 iota0 cb cb_good cb_int); assumption. }
+        pose proof (node_good false IdQ rho0 mu0 iota0 op args args' W F2) as (Wn & _).
         assert (FD : Forall DF args').
         { clear - H Wl Em. revert args' Em. induction H as [|a l Ha Hl IH]; intros args' Em; simpl in Em; [inversion Em; constructor|].
           inversion Wl as [|? ? Wa Wr]; subst. destruct (visitM cb a) as [a'| |] eqn:Ea; try discriminate. cbn [bind] in Em.
@@ -141,17 +142,17 @@ Section Idem.
         destruct (visitM cb e1) as [c'| |] eqn:E1; try discriminate. cbn [bind] in HV.
         destruct (visitM cb e2) as [a'| |] eqn:E2; try discriminate. cbn [bind] in HV.
         destruct (visitM cb e3) as [b'| |] eqn:E3; try discriminate. cbn [bind] in HV.
-        destruct (visit_good IdQ rho0 mu0 iota0 cb cb_good e1 c' W' E1) as (Wc' & Sc' & _). destruct (visit_good IdQ rho0 mu0 iota0 cb cb_good e2 a' Wa E2) as (Wa' & Sa' & _).
-        destruct (visit_good IdQ rho0 mu0 iota0 cb cb_good e3 b' Wb E3) as (Wb' & Sb' & _).
+        destruct (visit_good false IdQ rho0 mu0 iota0 cb cb_good cb_int e1 c' W' E1) as (Wc' & Sc' & _). destruct (visit_good false IdQ rho0 mu0 iota0 cb cb_good cb_int e2 a' Wa E2) as (Wa' & Sa' & _).
+        destruct (visit_good false IdQ rho0 mu0 iota0 cb cb_good cb_int e3 b' Wb E3) as (Wb' & Sb' & _).
         assert (X : (if expr_eqb c' e1 && expr_eqb a' e2 && expr_eqb b' e3 then ECond e1 e2 e3 else ECond c' a' b') = ECond c' a' b').
         { destruct (expr_eqb c' e1 && expr_eqb a' e2 && expr_eqb b' e3) eqn:Q; [|reflexivity]. apply andb_true_iff in Q as [Q Q3]. apply andb_true_iff in Q as [Q1 Q2].
           rewrite (wf_eqb_eq c' e1 Wc' W' Q1), (wf_eqb_eq a' e2 Wa' Wa Q2), (wf_eqb_eq b' e3 Wb' Wb Q3). reflexivity. }
         rewrite X in HV. apply (cb_DF (ECond c' a' b') rr); [simpl; rewrite Wc', Wa', Wb', Sa', Sb'; cbn [andb]; exact Sab | | exact HV].
         cbn [kids]. repeat split; [apply (IHe1 c' W' ltac:(first [reflexivity | exact E1])) | apply (IHe2 a' Wa ltac:(first [reflexivity | exact E2])) | apply (IHe3 b' Wb ltac:(first [reflexivity | exact E3]))].
       - (* ESlice *)
-        destruct (wf_slice_inv IdQ _ _ _ W) as (Wa & L0 & Llh & Lhs). simpl in HV.
+        destruct (wf_slice_inv false IdQ _ _ _ W) as (Wa & L0 & Llh & Lhs). simpl in HV.
         destruct (visitM cb e) as [a'| |] eqn:Ea; try discriminate. cbn [bind] in HV.
-        destruct (visit_good IdQ rho0 mu0 iota0 cb cb_good e a' Wa Ea) as (Wa' & Sa' & _).
+        destruct (visit_good false IdQ rho0 mu0 iota0 cb cb_good cb_int e a' Wa Ea) as (Wa' & Sa' & _).
         assert (X : (if expr_eqb a' e then ESlice e lo hi else ESlice a' lo hi) = ESlice a' lo hi).
         { destruct (expr_eqb a' e) eqn:Q; [|reflexivity]. rewrite (wf_eqb_eq a' e Wa' Wa Q). reflexivity. }
         rewrite X in HV. apply (cb_DF (ESlice a' lo hi) rr); [| cbn [kids]; apply (IHe a' Wa ltac:(first [reflexivity | exact Ea])) | exact HV].
@@ -168,7 +169,7 @@ Section Idem.
   Proof.
     intros RG RD. induction n as [|n IH]; intros x r W K H; simpl in H; [discriminate|].
     destruct (simp1 x) as [x1| |] eqn:E1; try discriminate. cbn [bind] in H.
-    pose proof (simp1_good IdQ rho0 mu0 iota0 x x1 W E1) as G1.
+    pose proof (simp1_good false IdQ rho0 mu0 iota0 x x1 W E1) as G1.
     destruct (expr_eqb x1 x) eqn:Q.
     - inversion H; subst r. apply DF_unfold. split; [|exact K]. rewrite E1. f_equal. apply wf_eqb_eq; [apply G1 | exact W | exact Q].
     - destruct (rec_simp x1) as [e2| |] eqn:E2; try discriminate. cbn [bind] in H.
@@ -179,14 +180,15 @@ Section Idem.
   Theorem simp_result_is_normal_form : forall fuel e r, wfq e = true -> simp fuel e = Ok r -> DF r.
   Proof.
     induction fuel as [|f IH]; intros e r W H; [simpl in H; discriminate|].
-    simpl in H. apply (visit_DF (simp_loop (simp f) (S f))) with (e := e); [| |exact W | exact H].
-    - intros x x' Wx Hx. apply (loop_good IdQ rho0 mu0 iota0 (simp f) (simp_good IdQ rho0 mu0 iota0 f) (S f)); assumption.
-    - intros x r0 Wx Kx Hx. apply (loop_DF (simp f) (simp_good IdQ rho0 mu0 iota0 f) IH (S f) x r0 Wx Kx Hx).
+    simpl in H. apply (visit_DF (simp_loop (simp f) (S f))) with (e := e); [| | |exact W | exact H].
+    - intros x x' Wx Hx. apply (loop_good false IdQ rho0 mu0 iota0 (simp f) (simp_good false IdQ rho0 mu0 iota0 f) (S f)); assumption.
+    - intros sg w v x' Hx. apply (loop_int _ _ _ _ _ _ Hx).
+    - intros x r0 Wx Kx Hx. apply (loop_DF (simp f) (simp_good false IdQ rho0 mu0 iota0 f) IH (S f) x r0 Wx Kx Hx).
   Qed.
 
   (** idempotence *)
   Theorem simp_idempotent : forall fuel e r, wfq e = true -> simp fuel e = Ok r -> forall f, simp (S f) r = Ok r.
   Proof.
-    intros fuel e r W H f. apply simp_of_normal_form; [apply (simp_good IdQ rho0 mu0 iota0 fuel e r W H) | apply (simp_result_is_normal_form fuel e r W H)].
+    intros fuel e r W H f. apply simp_of_normal_form; [apply (simp_good false IdQ rho0 mu0 iota0 fuel e r W H) | apply (simp_result_is_normal_form fuel e r W H)].
   Qed.
 End Idem.
